@@ -79,7 +79,7 @@ class MatWorld(World):
     PROPERTY = "C19"
     ENGINE = "mat"
     ASSUMPTIONS = [
-        "admissibility / monotonicity / traceless flow / dissipation / tangent are checked for rate-independent configurations (no rate law, no Maxwell branch); purity, solver agreement and finiteness for all",
+        "admissibility / monotonicity / traceless flow / dissipation are checked for rate-independent configurations (no rate law, no Maxwell branch); tangent, purity, solver agreement and finiteness for all",
         "the dissipation inequality uses the code's own free energy and is skipped with Armstrong-Frederick recall (non-associative), where only dGamma >= 0 is demanded",
         "points the code flags as non-converged are excluded and counted; the tangent is compared with a central difference only where both perturbed states stay in the same regime",
     ]
@@ -378,7 +378,7 @@ class MatWorld(World):
             return "ok"
 
         if name == "tangent":
-            if self.trial is None or not self.rate_indep:
+            if self.trial is None:
                 return "skip"
             return self._check_tangent()
 
@@ -417,30 +417,42 @@ class MatWorld(World):
             return "skip"
         # the step must dominate the solver tolerances (plane stress stops at |sigma_zz| < ~1e-9*C: a smaller step
         # would differentiate the tolerance, not the response) and stay small against the yield strain
-        h = (1e-2 if self.c["planeStress"] else 1e-4) * self.eps_y
+        h0 = (1e-2 if self.c["planeStress"] else 1e-4) * self.eps_y
         p_ref = self._p(z0)
         p_old = self._p(self.zOld)
-        good = conv & ~self._neutral(eps, dt, z0)
-        num = np.zeros_like(C)
-        for j in range(self.nstrain):
-            e = np.zeros(self.nstrain)
-            e[j] = h
-            try:
-                sp, _, zp, cp = self._integrate(beh, eps + e, dt, withTangent=False)
-                sm, _, zm, cm = self._integrate(beh, eps - e, dt, withTangent=False)
-            except SutError:
-                return "exc"
-            num[..., :, j] = (sp - sm) / (2 * h)
-            good &= cp & cm
-            if p_ref is not None:
-                # same regime on both sides (elastic or flowing), otherwise the difference straddles a kink
-                flow = lambda zz: (self._p(zz) - p_old) > 1e-14
-                good &= (flow(zp) == flow(zm)) & (flow(zp) == flow(z0))
-        if not good.any():
-            return "no-smooth-point"
-        cs = max(refs.maxabs(C), 1e-300)
-        err = np.max(np.abs((C - num)[good]))
-        if not err <= (2e-3 if self.c["planeStress"] else 5e-4) * cs:
+        tol = 2e-3 if self.c["planeStress"] else 5e-4
+        best = None
+        # rate laws and Maxwell branches make the response strongly curved: when the first difference quotient
+        # disagrees, the step is refined twice (a truncation error falls as h^2, a wrong tangent does not fall)
+        for h in ((h0,) if self.rate_indep else (h0, h0 / 4, h0 / 16)):
+            good = conv & ~self._neutral(eps, dt, z0)
+            num = np.zeros_like(C)
+            for j in range(self.nstrain):
+                e = np.zeros(self.nstrain)
+                e[j] = h
+                try:
+                    sp, _, zp, cp = self._integrate(beh, eps + e, dt, withTangent=False)
+                    sm, _, zm, cm = self._integrate(beh, eps - e, dt, withTangent=False)
+                except SutError:
+                    return "exc"
+                num[..., :, j] = (sp - sm) / (2 * h)
+                good &= cp & cm
+                if p_ref is not None:
+                    # same regime on both sides (elastic or flowing), otherwise the difference straddles a kink
+                    flow = lambda zz: (self._p(zz) - p_old) > 1e-14
+                    good &= (flow(zp) == flow(zm)) & (flow(zp) == flow(z0))
+            if not good.any():
+                if best is None:
+                    return "no-smooth-point"
+                break
+            cs = max(refs.maxabs(np.asarray(C)[good]), 1e-300)
+            err = np.max(np.abs((C - num)[good]))
+            if best is None or err / cs < best[0] / best[1]:
+                best = (err, cs)
+            if err <= tol * cs:
+                break
+        err, cs = best
+        if not err <= tol * cs:
             raise Violation("tangent-not-derivative", f"algorithmic tangent differs from the central difference of the returned stress by {err:.3e} (scale {cs:.3e}) [{self.c['yield']}, {self.c['hardening'][0]}, kin {len(self.c['kinematic'])}, {'plane stress' if self.c['planeStress'] else self.c['dim']}]")
         ctx.checked()
         ctx.probe("tangent_checked")
